@@ -785,7 +785,7 @@ Section Proofs.
 
     Lemma case_pp_loc : forall loc, p_pc p = PP_stat_loc loc -> step_res p fs (pstep fs p n).
     Proof.
-      intros loc Hpc. red_step Hpc. destruct (fs_exists fs loc); (apply res_same; [reflexivity|]).
+      intros loc Hpc. red_step Hpc. destruct (fs_islink fs loc && fs_exists fs loc); (apply res_same; [reflexivity|]).
       - apply proc_ok_set_pc; [exact Hok|exact I].
       - apply proc_ok_finish; [exact Hok|exact I].
     Qed.
@@ -970,7 +970,7 @@ Section Proofs.
     - destruct Hc as [_ Hm]. unfold fs_read. rewrite Hm. simpl. discriminate.
     - destruct Hc as (_ & _ & Hb). unfold fs_read. rewrite Hb. simpl. discriminate.
     - destruct (fs_exists fs (parent loc)); simpl; discriminate.
-    - destruct (fs_exists fs loc); simpl; discriminate.
+    - destruct (fs_islink fs loc && fs_exists fs loc); simpl; discriminate.
     - simpl. discriminate.
   Qed.
 
@@ -1093,7 +1093,7 @@ Section Proofs.
     - (* read_meta *) destruct (fs_read fs (meta k)); cbn [fst snd fail set_pc p_pc p_todo disc_pc todo_ok]; [exact H'|exact I].
     - (* read_blob *) destruct (fs_read fs (blob k)); cbn [fst snd fail finish p_pc p_todo disc_pc todo_ok]; [exact H'|exact I].
     - destruct (fs_exists fs (parent loc)); exact H'.
-    - destruct (fs_exists fs loc); exact H'.
+    - destruct (fs_islink fs loc && fs_exists fs loc); exact H'.
     - rewrite Hpc. exact H'.
   Qed.
 
@@ -1449,7 +1449,7 @@ Section Proofs.
       - destruct (fs_read fs (meta k)); simpl; auto using todo_in_L_nil.
       - destruct (fs_read fs (blob k)); simpl; auto using todo_in_L_nil.
       - destruct (fs_exists fs (parent loc)); simpl; auto.
-      - destruct (fs_exists fs loc); simpl; auto.
+      - destruct (fs_islink fs loc && fs_exists fs loc); simpl; auto.
       - rewrite Hpc. simpl. auto.
     Qed.
 
